@@ -21,7 +21,9 @@ import (
 
 func init() {
 	register(&Scenario{Prop: "C08", Name: "filesink-conc", Run: func(rc *RunCtx) { runFileSink(rc, "C08", false, false) }})
-	register(&Scenario{Prop: "C08", Name: "filesink-crash", Run: func(rc *RunCtx) { runFileSink(rc, "C08", true, false) }})
+	// crash at a tape-chosen step; for one run in 40 the worker additionally
+	// replays the same schedule with the crash at EVERY step (fault enumeration)
+	register(&Scenario{Prop: "C08", Name: "filesink-crash", Run: func(rc *RunCtx) { runFileSink(rc, "C08", true, false) }, EnumDraw: "crashstep", EnumEvery: 40})
 	register(&Scenario{Prop: "C15", Name: "filesink-rotation", Run: func(rc *RunCtx) { runFileSink(rc, "C15", false, false) }})
 	register(&Scenario{Prop: "C13", Name: "filesink-faults", Run: func(rc *RunCtx) { runFileSink(rc, "C13", false, true) }})
 }
@@ -299,7 +301,8 @@ func runFileSink(rc *RunCtx, prop string, crash bool, faults bool) {
 	}
 	if crash {
 		rc.KillOnExit = true
-		sim.CrashAtStep = 1 + tp.Choose(40*len(events)+20, "crashstep")
+		tp.Name("crashstep")
+		sim.CrashAtStep = tp.Choose(40*len(events)+200, "crashstep") // 0 = no crash
 		desc.CrashStep = sim.CrashAtStep
 	}
 	reason := sim.Run(nil)
